@@ -408,6 +408,9 @@ bool exec_line(char *line, int lineno, int thr) {
 	} else if (strcmp(op, "get") == 0) {
 		HEAD(); fprintf(vout, ",\"fn\":\"%s\",\"arg\":", tok[1]); out_str(n > 2 ? arg_str(tok[2]) : NULL);
 		fputs(",\"res\":", vout); if (bidib_running) proj_get(tok[1], n - 2, tok + 2); else fputs("null", vout); TAIL();
+	} else if (strcmp(op, "bundle") == 0) {
+		/* bundle take | print <k> | free <k>   (C17: results kept across later events and bidib_stop) */
+		HEAD(); fprintf(vout, ",\"what\":\"%s\",\"res\":", tok[1]); proj_bundle(tok[1], n > 2 ? atoi(tok[2]) : -1); TAIL();
 	} else if (strcmp(op, "tables") == 0) {
 		HEAD(); fputs(",\"respinfo\":[", vout);
 		for (int t = 0; t < 0x80; t++) {
